@@ -107,3 +107,18 @@ pub fn plus(a: Instant, d: (u64, u32)) -> (i64, u32) {
 pub fn dur_parts(d: Duration) -> (u64, u32) {
     (d.as_secs(), d.subsec_nanos())
 }
+
+/// Symbolic wall clock: harnesses stub `SystemTime::now` with `fake_sys_now`.
+pub static mut SYS_NOW: (i64, u32) = (0, 0);
+pub fn fake_sys_now() -> std::time::SystemTime {
+    const _: () = assert!(std::mem::size_of::<std::time::SystemTime>() == 16);
+    #[repr(C)]
+    struct Raw {
+        secs: i64,
+        nanos: u32,
+    }
+    unsafe { std::mem::transmute::<Raw, std::time::SystemTime>(Raw { secs: SYS_NOW.0, nanos: SYS_NOW.1 }) }
+}
+pub fn set_sys_now(secs: i64, nanos: u32) {
+    unsafe { SYS_NOW = (secs, nanos) }
+}
